@@ -179,6 +179,7 @@ theorem stepNone_ok {o : Oracles} {c e mo mo' : Option Nat} {r : Resolved}
     obtain ⟨md, h1, h⟩ := h
     simp only [pure, Except.pure, Except.ok.injEq, Prod.mk.injEq] at h
     obtain ⟨rfl, rfl⟩ := h
+    unfold pickCharDeg at h0
     refine ⟨pickModulus_ok h1, ?_, ?_, by simp, by simp, ?_, ?_⟩
     · intro c0 hc
       obtain ⟨rfl, _⟩ := hc
